@@ -52,6 +52,8 @@ func Main() {
 		os.Exit(cmdRun(os.Args[2:]))
 	case "replay":
 		os.Exit(cmdReplay(os.Args[2:]))
+	case "crashprobe":
+		cmdCrashProbe(os.Args[2:])
 	case "determinism":
 		os.Exit(cmdDeterminism(os.Args[2:]))
 	case "digests":
@@ -84,6 +86,34 @@ func cmdWorker(args []string) {
 	res := Worker(ck, *tier, *seed, *worker, *of, *budget, *maxRuns, *samples)
 	b, _ := json.Marshal(res)
 	fmt.Printf("\n%s\n", b)
+}
+
+// cmdCrashProbe executes one run in generate mode with a choice journal (see ProbeCrash).
+func cmdCrashProbe(args []string) {
+	fs := flag.NewFlagSet("crashprobe", flag.ExitOnError)
+	prop := fs.String("prop", "", "")
+	part := fs.String("part", "", "")
+	tier := fs.String("tier", "quick", "")
+	seed := fs.Uint64("seed", 1, "")
+	index := fs.Uint64("index", 0, "")
+	journal := fs.String("journal", "", "")
+	fs.Parse(args)
+	ck := LookupPart(*prop, *part)
+	if ck == nil {
+		fmt.Fprintln(os.Stderr, "no such check", *prop, *part)
+		os.Exit(2)
+	}
+	f, err := os.OpenFile(*journal, os.O_WRONLY|os.O_TRUNC|os.O_CREATE, 0o644)
+	if err != nil {
+		fmt.Fprintln(os.Stderr, err)
+		os.Exit(2)
+	}
+	c := NewGen(*seed, runStream(ck, *index))
+	c.SetJournal(f)
+	r := NewRun(ck.Prop, *tier, *seed, *index, c, false)
+	fmt.Fprintf(os.Stderr, "RUN-START %d\n", *index)
+	herr := Execute(ck, r)
+	fmt.Printf("CRASHPROBE survived herr=%q violations=%d\n", herr, len(r.Violations))
 }
 
 // cmdDigests prints "index digest violations" for a range of runs (determinism self-test).
@@ -338,7 +368,7 @@ func cmdRun(args []string) int {
 			fmt.Printf("HARNESS-ERROR property=%s part=%s: %s\n", *prop, ck.Name, pr.Harness[0])
 			return 2
 		}
-		if ck.MinRuns > 0 && pr.Runs < ck.MinRuns {
+		if ck.MinRuns > 0 && pr.Runs < ck.MinRuns && pr.Stats["worker-process-crashes"] == 0 {
 			fmt.Printf("HARNESS-ERROR property=%s part=%s: only %d runs completed (< %d)\n", *prop, ck.Name, pr.Runs, ck.MinRuns)
 			return 2
 		}
@@ -351,7 +381,84 @@ func cmdRun(args []string) int {
 			shrinkBudget /= time.Duration(len(pr.Found))
 		}
 		for _, f := range pr.Found {
+			if strings.HasPrefix(f.Class, CrashClassPrefix) {
+				// the code under test killed the process: nothing of this can run in-process
+				sig := strings.TrimPrefix(f.Class, CrashClassPrefix)
+				kf := MatchKnown(known, *prop, f)
+				small, tries := f.Choices, 0
+				if kf == nil {
+					sbc := shrinkBudget
+					if sbc > 2*time.Minute {
+						sbc = 2 * time.Minute
+					}
+					small, tries = ShrinkWith(f.Choices, func(cand []uint32) bool {
+						return CrashesFresh(self, ck, *tier, seed, f.Index, cand, sig)
+					}, sbc)
+				}
+				rf := &ReplayFile{Property: *prop, Part: ck.Name, Tier: *tier, Seed: seed, Index: f.Index, Choices: small,
+					Violation: Violation{Class: f.Class, Detail: f.Detail}, RepoRev: RepoRev(),
+					Shrunk: fmt.Sprintf("choice log %d -> %d entries in %d fresh-process replays", len(f.Choices), len(small), tries)}
+				path, err := WriteReplay(filepath.Join(VerifDir(), "replays"), rf)
+				if err != nil {
+					fmt.Printf("HARNESS-ERROR cannot write replay: %v\n", err)
+					return 2
+				}
+				repro := false
+				var out string
+				for attempt := 0; attempt < 3 && !repro; attempt++ {
+					repro, _, out = VerifyReplayFresh(self, path)
+				}
+				if !repro && len(small) != len(f.Choices) {
+					rf.Choices, rf.Shrunk = f.Choices, "not minimised (the minimised log did not repeat the crash)"
+					if path, err = WriteReplay(filepath.Join(VerifDir(), "replays"), rf); err == nil {
+						repro, _, out = VerifyReplayFresh(self, path)
+					}
+				}
+				if !repro {
+					fmt.Printf("HARNESS-ERROR property=%s part=%s: replay %s does not repeat process crash %q in a fresh process (not reported as a violation)\n%s\n", *prop, ck.Name, path, f.Class, tail(out, 20))
+					return 2
+				}
+				if kf != nil {
+					knownLines = append(knownLines, fmt.Sprintf("KNOWN-FINDING: property=%s %s (class=%s, %d worker processes, replay=%s)", *prop, kf.What, f.Class, f.Count, path))
+				} else {
+					unlisted++
+					exit = 1
+					violationLines = append(violationLines, fmt.Sprintf("VIOLATION property=%s replay=%s", *prop, path))
+					fmt.Printf("violation detail: part=%s class=%s runs=%d\n  %s\n", ck.Name, f.Class, f.Count, f.Detail)
+				}
+				continue
+			}
 			kf := MatchKnown(known, *prop, f)
+			if pr.Stats["worker-process-crashes"] > 0 {
+				// the code under test can kill the process on this tree: nothing is replayed inside
+				// the driver; the violation is reported un-minimised after a fresh-process replay
+				rf := &ReplayFile{Property: *prop, Part: ck.Name, Tier: *tier, Seed: seed, Index: f.Index, Choices: f.Choices,
+					Violation: Violation{Class: f.Class, Detail: f.Detail}, TraceDigest: f.Digest, RepoRev: RepoRev(),
+					Shrunk: "not minimised (the code under test kills the process in other runs of this batch; no in-process replays)"}
+				path, err := WriteReplay(filepath.Join(VerifDir(), "replays"), rf)
+				if err != nil {
+					fmt.Printf("HARNESS-ERROR cannot write replay: %v\n", err)
+					return 2
+				}
+				repro := false
+				var out string
+				for attempt := 0; attempt < 3 && !repro; attempt++ {
+					repro, _, out = VerifyReplayFresh(self, path)
+				}
+				if !repro {
+					fmt.Printf("HARNESS-ERROR property=%s part=%s: replay %s does not reproduce class %q in a fresh process (harness nondeterminism, not reported as a violation)\n%s\n", *prop, ck.Name, path, f.Class, tail(out, 20))
+					return 2
+				}
+				if kf != nil {
+					knownLines = append(knownLines, fmt.Sprintf("KNOWN-FINDING: property=%s %s (class=%s, %d runs, replay=%s)", *prop, kf.What, f.Class, f.Count, path))
+				} else {
+					unlisted++
+					exit = 1
+					violationLines = append(violationLines, fmt.Sprintf("VIOLATION property=%s replay=%s", *prop, path))
+					fmt.Printf("violation detail: part=%s class=%s runs=%d\n  %s\n", ck.Name, f.Class, f.Count, f.Detail)
+				}
+				continue
+			}
 			sb := shrinkBudget
 			small, tries := f.Choices, 0
 			if kf == nil {
